@@ -326,3 +326,14 @@ def run(run):
         if run.counters["violations"] > 30:
             break
     common.drop_scratch(side_dir)
+
+
+def replay(run, rec):
+    w = rec["witness"]
+    fam = common.from_json(w["fam"])
+    d = common.scratch_dir("bvf_replay_")
+    bench = harness.Bench(fam, VARIANTS, d, instrument=())
+    bench.skeleton = "replay"
+    raw = common.from_json(w["raw"])
+    pv = model.val_from_json(w["values"])
+    one_tree(run, bench, common.rng_for(0, "replay"), raw, pv, family_features(fam))
